@@ -298,6 +298,16 @@ func (m *Machine) callValue(s *State, f *Frame, x *ssa.Call, cc *ssa.CallCommon,
 			setRes(Opaque{"shallow-init call " + name})
 			return nil
 		}
+		if rep, ok := m.replace[name]; ok {
+			rf := m.hpkg.Func(rep)
+			if rf == nil {
+				s.fail("unsupported", "replacement function not found: "+rep)
+				return nil
+			}
+			m.stubs["engine-side replacement of "+name+" by harness model "+rep]++
+			m.pushFrame(s, rf, args, nil, dest)
+			return nil
+		}
 		if m.summarize[name] && x != nil {
 			return m.summarizedCall(s, f, x, callee, args)
 		}
@@ -575,7 +585,7 @@ func (m *Machine) intrinsic(s *State, f *Frame, x *ssa.Call, name string, callee
 		f.env[x] = v
 		s.pc = append(s.pc, c.Cmp("bvsge", sc(v), c.BV(0, 64)), c.Cmp("bvslt", sc(v), sc(args[0])))
 		return nil, true
-	case strings.HasPrefix(name, "strings.") || strings.HasPrefix(name, "net/url.") || strings.HasPrefix(name, "strconv."):
+	case strings.HasPrefix(name, "strings.") || strings.HasPrefix(name, "net/url.") || strings.HasPrefix(name, "strconv.") || name == "path/filepath.Join":
 		if m.nativeStringFn(s, f, x, name, args) {
 			return nil, true
 		}
@@ -614,6 +624,9 @@ func (m *Machine) intrinsic(s *State, f *Frame, x *ssa.Call, name string, callee
 		if succ, ok := m.fmtIntrinsic(s, f, x, name, args); ok {
 			return succ, true
 		}
+	case short == "vTempDir":
+		f.env[x] = m.mkStr("/zzverif")
+		return nil, true
 	case short == "vGo":
 		fv := args[1].(FuncV)
 		m.spawn(s, fv.fn, nil, fv.free)
